@@ -269,6 +269,7 @@ where
     {
         let chooser = chooser.clone();
         let repair_rpcs_may_fail = repair_rpcs_may_fail.clone();
+        let lose_all_direct = cfg.lose_all_direct;
         datacake_rpc::verif::set_policy(move |_dst, path| {
             if !path.contains("ConsistencyService") {
                 // repair RPCs: the closing exchanges complete; an exchange in the middle of
@@ -277,6 +278,10 @@ where
                     return NetVerdict::DropRequest;
                 }
                 return NetVerdict::Deliver;
+            }
+            if lose_all_direct {
+                // anti-entropy only: every direct message and every batch is lost
+                return NetVerdict::DropRequest;
             }
             match chooser.borrow_mut().choose(3) {
                 0 => NetVerdict::Deliver,
@@ -832,6 +837,13 @@ pub fn run(tier: Tier) -> i32 {
         jumpy3.allow_unreachable_node = true;
         jumpy3.time_jumps = true;
         blocks.push(Block { name: "N=2, 3 operations (thinned), one node unreachable, restarts, 55-minute jumps, <=2 deviations", cfg: jumpy3, histories: sequences(&al2_thin, 3), bound: 2 });
+        let mut anti = two(false);
+        anti.lose_all_direct = true;
+        blocks.push(Block { name: "N=2, 3 operations, every direct message and batch lost (anti-entropy only), <=2 deviations", cfg: anti, histories: sequences(&al2, 3), bound: 2 });
+        let mut anti4 = two(false);
+        anti4.allow_restart = false;
+        anti4.lose_all_direct = true;
+        blocks.push(Block { name: "N=2, 4 operations (thinned), every direct message and batch lost (anti-entropy only), <=1 deviation", cfg: anti4, histories: sequences(&al2_thin, 4), bound: 1 });
         let mut faulty = two(false);
         faulty.faulty_repairs = true;
         blocks.push(Block { name: "N=2, 1 operation, repair exchanges may lose any of their requests (also after the last operation), <=5 deviations", cfg: faulty, histories: sequences(&al2, 1), bound: 5 });
@@ -876,6 +888,10 @@ pub fn run(tier: Tier) -> i32 {
         jumpy.time_jumps = true;
         let al2_none = op_alphabet(2, &[Consistency::None]);
         blocks.push(Block { name: "N=2, 2 operations (level None), one node unreachable until a chosen moment, restarts, 55-minute jumps between and after operations, <=3 deviations", cfg: jumpy, histories: sequences(&al2_none, 2), bound: 3 });
+        let mut anti = two(false);
+        anti.allow_restart = false;
+        anti.lose_all_direct = true;
+        blocks.push(Block { name: "N=2, 3 operations (thinned), every direct message and batch lost (anti-entropy only), <=1 deviation", cfg: anti, histories: sequences(&al2_thin, 3), bound: 1 });
         let mut faulty = two(false);
         faulty.allow_restart = false;
         faulty.faulty_repairs = true;
